@@ -3,6 +3,8 @@
    universally quantified. *)
 From Coq Require Import List NArith ZArith Bool.
 From Verif Require Import Common.Str Common.Json C08.Model_C08 C08.Proofs_C08.
+From Coq Require String.
+Import String.StringSyntax.
 Import ListNotations.
 
 (* The code as it is: in the object schema generated for one location, the property of a name is
@@ -168,3 +170,42 @@ Theorem C08_cache_hypotheses_satisfiable :
   exists o, nth_error (run V30 doc_good2 empty_cache accs_good) 2 = Some (ROp (Val o)) /\ List.length (o_query o) = 2%nat.
 Proof. exact coherent_nonvacuous. Qed.
 Print Assumptions C08_cache_hypotheses_satisfiable.
+
+(* Security-derived parameters are part of the effective parameters.  For every operation make_operation builds
+   (whichever route leads to it: iteration, path and method, operationId, reference all end in make_operation), with
+   active = the security definitions named by the requirements in force for it (operation-level security, else global):
+   (1) each container holds the parameters declared for that location (operation level first, then path level),
+       unchanged and in order, followed only by parameters derived from active definitions;
+   (2) for every active apiKey definition with name n and location c, container c serves n: by the declared parameter
+       of THAT (name, location) when there is one (the explicit definition wins, nothing is added), by a
+       security-derived one otherwise.  The statement for container c mentions no other container: a parameter of the
+       same name declared in another location neither satisfies nor suppresses the security parameter. *)
+Theorem C08_security_parameters_effective : forall v doc path method params raw resolved scope o',
+  make_operation v doc path method params raw resolved scope = Val o' ->
+  exists active, active_definitions v doc raw = Val active /\
+  forall c,
+    (exists added, container o' c = declared_in c params ++ added /\ Forall (sec_param v active) added) /\
+    (forall d n, In d active -> api_key_of d = Some (n, c) ->
+       exists p, set_get (container o' c) n = Val (Some p) /\
+                 (forall p0, set_get (declared_in c params) n = Val (Some p0) -> p = p0) /\
+                 (set_get (declared_in c params) n = Val None -> sec_param v active p)).
+Proof. exact security_parameters_effective. Qed.
+Print Assumptions C08_security_parameters_effective.
+
+(* the executable form of (2), the one evaluated per generated case against the implementation *)
+Theorem C08_security_keys_present : forall v doc path method params raw resolved scope o' active,
+  make_operation v doc path method params raw resolved scope = Val o' ->
+  active_definitions v doc raw = Val active -> security_keys_present active o' = true.
+Proof. exact security_keys_present_holds. Qed.
+Print Assumptions C08_security_keys_present.
+
+(* non-vacuity: API key in header token + declared cookie token (path level) + declared query token (operation
+   level) + a second requirement (query api_key): header [token] is the security one, query [token; api_key];
+   on the other operation both keys are declared in the same location and nothing is added *)
+Theorem C08_security_parameters_hypotheses_satisfiable :
+  fresh_keys V30 doc_sec_clash (AGet (S "/reset") (S "post"))
+    = Val [Val []; Val [JStr (S "token")]; Val [JStr (S "token")]; Val [JStr (S "token"); JStr (S "api_key")]] /\
+  fresh_keys V30 doc_sec_clash (AGet (S "/me") (S "get"))
+    = Val [Val []; Val [JStr (S "token")]; Val []; Val [JStr (S "api_key")]].
+Proof. exact security_clash_witness. Qed.
+Print Assumptions C08_security_parameters_hypotheses_satisfiable.
